@@ -541,7 +541,12 @@ func (p *gProg) render(lo, hi int, root bool) string {
 		sb.WriteString("silent: true\n")
 	}
 	if root && p.IncSplit > 0 {
-		sb.WriteString("includes:\n  n: ./inc\n")
+		if p.IncDefaultV || len(p.Tasks)%2 == 0 {
+			// long form ("advanced import"): the tasks get the include's vars and the included Taskfile's vars
+			sb.WriteString("includes:\n  n:\n    taskfile: ./inc\n    vars: {IV: iv}\n")
+		} else {
+			sb.WriteString("includes:\n  n: ./inc\n")
+		}
 	}
 	out := p.Output
 	if !root {
